@@ -88,7 +88,8 @@ class SumLinearOperator(LinearOperator):
         from linear_operator.operators.diag_linear_operator import DiagLinearOperator
 
         if isinstance(other, ZeroLinearOperator):
-            return self
+            # broadcast / validate the shapes (ZeroLinearOperator.__add__)
+            return other + self
         elif isinstance(other, DiagLinearOperator):
             return AddedDiagLinearOperator(self, other)
         elif isinstance(other, SumLinearOperator):
